@@ -9,8 +9,10 @@ import (
 	"fmt"
 	"math/rand/v2"
 	"os"
+	"path"
 	"strings"
 	"syscall"
+	"time"
 )
 
 func vfNlink(fi os.FileInfo) string {
@@ -83,6 +85,39 @@ func vfStartSession(r *vfRun, ops []vfOp) *vfSession {
 		os.Symlink("d", s.root+"/ld")
 		os.Symlink("nowhere", s.root+"/ldang")
 		s.srv = vfStartServer(sim, 0, alloc, nil, 0, s.root, sc.cfg("readonly", 0) != 0, "", maxTx)
+	} else if kind == 3 {
+		// the package's own in-memory example backend behind a RequestServer, with the same initial files
+		h := InMemHandler()
+		mem := h.FileGet.(*root)
+		t0 := time.Unix(946684800, 0)
+		mem.files["/d"] = &memFile{name: "d", modtime: t0, isdir: true}
+		for _, f := range vfInitFiles {
+			mem.files["/"+f.p] = &memFile{name: path.Base(f.p), modtime: t0, content: vfFill(s.tag^vfHashStr(f.p), 0, f.n)}
+		}
+		mem.files["/l0"] = &memFile{name: "l0", modtime: t0, symlink: "/f0"}
+		sim.ticks = true // its WriteAt sleeps (on the bubble's clock)
+		srv := &vfServer{sim: sim, kind: 1}
+		srv.c2s = sim.newPipe("c2s")
+		srv.s2c = sim.newPipe("s2c")
+		srv.end = &vfEnd{r: srv.c2s, w: srv.s2c, closeBoth: true}
+		var opts []RequestServerOption
+		if alloc {
+			opts = append(opts, vfRSAllocOpt())
+		}
+		if maxTx != 0 {
+			opts = append(opts, WithRSMaxTxPacket(maxTx))
+		}
+		rs := NewRequestServer(srv.end, h, vfShuffleOpts(opts)...)
+		srv.rs = rs
+		srv.alloc = rs.pktMgr.alloc
+		go func() {
+			err := rs.Serve()
+			srv.mu.Lock()
+			srv.done, srv.err = true, err
+			srv.mu.Unlock()
+			srv.end.Close()
+		}()
+		s.srv = srv
 	} else {
 		s.fs = newSfs(sim)
 		s.fs.addDir("/d")
